@@ -5,6 +5,7 @@ TWOQ = {"CNOT", "CZ"}
 PHS = {}
 STRAT = "full"
 TEMPLATE <- TmplGauss
+SIMPMODE = "one"
 GAUSS = "simple"
 INIT Init
 NEXT Next
